@@ -328,7 +328,12 @@ def judge_fault(fault, args, r, before, after, expect_fail, stdout_path, cnt, ca
     """Oracle for one process run of the fault workload. Returns (violations, failed)."""
     viols = []
     if r["timeout"]:
-        cnt["timeouts(inconclusive)"] += 1
+        if r.get("timeout_confirmed"):
+            viols.append({"clause": "does-not-terminate", "signature": f"cli-does-not-terminate:{fault}",
+                          "detail": f"`{' '.join(args)}` produced neither a result nor an error within the watchdog, three times",
+                          "case": case})
+        else:
+            cnt["timeouts(inconclusive)"] += 1
         return viols, None
     crashed = r["exit"] is None or r["exit"] < 0 or r["exit"] == 101 or r["exit"] == 134 or "panicked at" in r["stderr"]
     if crashed:
@@ -464,6 +469,9 @@ def run_faults(desc):
                 out_name = "o.bin" if "--output" in args else None
             before = sb.listing()
             r = sb.run(args, stdout_path=stdout_path)
+            if r["timeout"]:
+                # bounded progress: the watchdog (120 s) fired; only three firings in a row count as "does not terminate"
+                r["timeout_confirmed"] = all(sb.run(args, stdout_path=stdout_path)["timeout"] for _ in range(2))
             after = sb.listing()
         cnt["fault_" + fault] += 1
         cnt["process_runs"] += 1
